@@ -53,3 +53,5 @@ mod c04_wide_shift;
 mod wide8;
 #[cfg(kani)]
 mod wide57;
+#[cfg(kani)]
+mod c09_wide;
